@@ -150,6 +150,13 @@ type Service struct {
 	// Channel to receive high watermark updates from the cluster.
 	hwmObCh chan uint64
 
+	// unsent is the event the leader loop has read from the FIFO but has not yet
+	// transmitted, skipped, or dropped after exhausting its retries. Reading from the
+	// FIFO advances the FIFO's read position, so if leadership is lost while the event
+	// is being retried it must be kept, so the next leader loop on this node sends it.
+	// It is only accessed by the leader loop, of which at most one runs at any time.
+	unsent *Event
+
 	// For CDC shutdown.
 	wg      sync.WaitGroup
 	done    chan struct{}
@@ -506,75 +513,83 @@ func (s *Service) leaderLoop() (chan struct{}, chan struct{}) {
 		}()
 
 		for {
-			select {
-			case <-stop:
-				return
-
-			case ev := <-s.fifo.C:
-				if ev == nil {
+			ev := s.unsent
+			if ev == nil {
+				select {
+				case <-stop:
 					return
-				}
-				if ev.Index <= s.highWatermark.Load() {
-					// High watermark has advanced since we read this event from the FIFO.
-					// This could happen on followers if the Leader has advanced the HWM
-					// but this node hasn't even had the event generated by its underlying
-					// database yet.
-					stats.Add(numHWMIgnored, 1)
-					continue
-				}
-
-				// Decompress the data read from FIFO into a byte slice. We need to do this
-				// so the sink can handle the request properly.
-				decompressed, err := flate.Decompress(ev.Data)
-				if err != nil {
-					s.logger.Printf("error decompressing data for batch from FIFO: %v", err)
-					continue
-				}
-
-				nAttempts := 0
-				retryDelay := s.transmitMinBackoff
-				sentOK := false
-				for {
-					nAttempts++
-
-					stats.Add(numBytesTx, int64(len(decompressed)))
-					_, err := s.sink.Write(decompressed)
-					if err == nil {
-						sentOK = true
-						break
-					}
-					stats.Add(numEventTxFailed, 1)
-
-					if s.transmitMaxRetries != retryForever && nAttempts == s.transmitMaxRetries {
-						s.logger.Printf("failed to send request to endpoint after %d retries, last error: %v", nAttempts, err)
-						stats.Add(numDroppedFailedToSend, 1)
-						break
-					}
-
-					// OK, need to prep for a retry.
-					if s.transmitRetryPolicy == ExponentialRetryPolicy {
-						retryDelay *= 2
-						if retryDelay > s.transmitMaxBackoff {
-							retryDelay = s.transmitMaxBackoff
-						}
-					}
-					stats.Add(numRetries, 1)
-					s.endpointRetries.Add(1)
-
-					// Sleep, but detect any shutdown request while sleeping.
-					t := time.NewTimer(retryDelay)
-					select {
-					case <-stop:
-						t.Stop()
+				case ev = <-s.fifo.C:
+					if ev == nil {
 						return
-					case <-t.C:
 					}
-				}
-				if sentOK {
-					s.highWatermark.Store(ev.Index)
-					stats.Add(numEventsTxOK, 1)
+					s.unsent = ev
 				}
 			}
+
+			if ev.Index <= s.highWatermark.Load() {
+				// High watermark has advanced since we read this event from the FIFO.
+				// This could happen on followers if the Leader has advanced the HWM
+				// but this node hasn't even had the event generated by its underlying
+				// database yet.
+				stats.Add(numHWMIgnored, 1)
+				s.unsent = nil
+				continue
+			}
+
+			// Decompress the data read from FIFO into a byte slice. We need to do this
+			// so the sink can handle the request properly.
+			decompressed, err := flate.Decompress(ev.Data)
+			if err != nil {
+				s.logger.Printf("error decompressing data for batch from FIFO: %v", err)
+				s.unsent = nil
+				continue
+			}
+
+			nAttempts := 0
+			retryDelay := s.transmitMinBackoff
+			sentOK := false
+			for {
+				nAttempts++
+
+				stats.Add(numBytesTx, int64(len(decompressed)))
+				_, err := s.sink.Write(decompressed)
+				if err == nil {
+					sentOK = true
+					break
+				}
+				stats.Add(numEventTxFailed, 1)
+
+				if s.transmitMaxRetries != retryForever && nAttempts == s.transmitMaxRetries {
+					s.logger.Printf("failed to send request to endpoint after %d retries, last error: %v", nAttempts, err)
+					stats.Add(numDroppedFailedToSend, 1)
+					break
+				}
+
+				// OK, need to prep for a retry.
+				if s.transmitRetryPolicy == ExponentialRetryPolicy {
+					retryDelay *= 2
+					if retryDelay > s.transmitMaxBackoff {
+						retryDelay = s.transmitMaxBackoff
+					}
+				}
+				stats.Add(numRetries, 1)
+				s.endpointRetries.Add(1)
+
+				// Sleep, but detect any shutdown request while sleeping. The event
+				// remains in s.unsent, and will be sent when this node is next Leader.
+				t := time.NewTimer(retryDelay)
+				select {
+				case <-stop:
+					t.Stop()
+					return
+				case <-t.C:
+				}
+			}
+			if sentOK {
+				s.highWatermark.Store(ev.Index)
+				stats.Add(numEventsTxOK, 1)
+			}
+			s.unsent = nil
 		}
 	}()
 
